@@ -196,14 +196,16 @@ func genBatch(r *rand.Rand, fc focus) *program {
 			return func() { e.conn.SetRequiredAcks(n) }
 		}},
 		{"Conn.Broker", 1, func(r *rand.Rand) func() {
-			return func() { e.conn.Broker(); e.conn.LocalAddr(); e.conn.RemoteAddr() }
+			return func() { e.conn.Broker() }
 		}},
+		{"Conn.LocalAddr", 1, func(r *rand.Rand) func() { return func() { e.conn.LocalAddr() } }},
+		{"Conn.RemoteAddr", 1, func(r *rand.Rand) func() { return func() { e.conn.RemoteAddr() } }},
 	}
 	return &program{
 		threads: genThreads(r, fc, cs, 2, 12),
 		before:  func() { e.open(cfg, seek); e.readBatch() },
 		after:   e.close,
-		also:    []string{"Conn.ReadBatchWith", "Conn.Close", "Conn.LocalAddr", "Conn.RemoteAddr"},
+		also:    []string{"Conn.ReadBatchWith", "Conn.Close"},
 	}
 }
 
